@@ -323,3 +323,22 @@ def node_id_maps(spec, classes, tag=''):
 def install_path(repo='/repo'):
     if repo not in sys.path:
         sys.path.insert(0, repo)
+
+
+def pure_compute(i, nd_json, kwargs, self):
+    """stateless node body (for real thread / process pools): outcome depends on the arguments only"""
+    import json as _json
+    nd = _json.loads(nd_json)
+    fails = nd['fails']
+    if fails and fails[0] is not None:
+        raise make_exc(fails[0], i, 0)
+    b = nd['beh']
+    if b == 'none':
+        return None
+    if isinstance(b, list) and b[0] in ('int', 'str'):
+        return b[1]
+    if isinstance(b, list) and b[0] == 'recur':
+        ep = find_epoch(kwargs)
+        if ep < b[1]:
+            return self.next_iteration(ep + 1)
+    return ('v', i, tuple(sorted((canon_key(k), v) for k, v in kwargs.items())))
